@@ -19,6 +19,7 @@ FAMILY = {
     "C17": "fam_retry",
     "C15": "fam_page",
     "C13": "fam_remote",
+    "C14": "fam_referrers",
     "C16": "fam_auth",
     "C06": "fam_store", "C07": "fam_store", "C08": "fam_store", "C09": "fam_store",
     "C01": "fam_copy", "C02": "fam_copy", "C03": "fam_copy", "C04": "fam_copy",
